@@ -444,12 +444,39 @@ def _all_code(co):
             yield from _all_code(c)
 
 
+_WARM = set()
+
+
+def _warm_tracing():
+    """CPython 3.12: the first frame on which `f_trace_opcodes` is set in a process only starts delivering 'opcode' events
+    after the next re-instrumentation, so the first traced execution of a process would record nothing.  Do one throwaway
+    traced execution per process."""
+    import os
+    if os.getpid() in _WARM:
+        return
+    _WARM.add(os.getpid())
+
+    def loc(frame, event, arg):
+        return loc
+
+    def tr(frame, event, arg):
+        frame.f_trace_opcodes = True
+        return loc
+    old = sys.gettrace()
+    sys.settrace(tr)
+    try:
+        exec(compile("a = 1\nb = a\n", "<warm>", "exec"), {})
+    finally:
+        sys.settrace(old)
+
+
 def run_once(src, marker, g):
     """Execute `src` with globals `g` under a tracer.  Returns dict:
        ne: global names whose lookup raised NameError (also when caught by the program), in order, unique
        ae: dotted names `module.attr` whose lookup on a universe module raised AttributeError
        outcome: ok | NameError | UnboundLocal | FreeVar | AttributeError | UserExc | Other:<Type>
        all_read: every Name(Load) node was executed;  early: a function/lambda ran before `marker`"""
+    _warm_tracing()
     tree = ast.parse(src)
     code = compile(tree, FN, "exec", dont_inherit=True)
     st = dict(mod=None, early=False)
